@@ -76,6 +76,18 @@ def sweep_cases(rng, tmpdir):
     fz_setup = vd_setup + ['vd 0 set_fz0_vector 0 %s %s' % (z(75 + 1j), z(75 + 2j)), 'vd 0 set_fz0_vector 1 %s %s' % (z(80 + 1j), z(80 + 2j))]
     G.append(('vnadata-fz0', fz_setup, [(l, (e,), False) for l, e in bad if ' get_fz0' not in l or ' -1' in l or ' 2 ' in l or ' 3' in l or '1000000' in l], 'vd 0 digest',
               ['vd 0 get_fz0 1 1', 'vd 0 set_z0 0 %s' % z(50), 'vd 0 free', 'vd 1 free']))
+    # an object that was larger before (3 ports, 3 frequencies, now 2 and 2): the indices between the present and the former bounds are as
+    # invalid as any other (the storage behind them still exists), with ordinary and with per-frequency impedances
+    sh_setup = ['vd 0 alloc', 'vd 0 init 1 3 3 3', 'vd 0 set_frequency_vector %s %s %s' % (d2(f1), d2(f2), d2(f3)),
+                'vd 0 set_matrix 0 ' + ' '.join(z(complex(k, -k)) for k in range(9)), 'vd 0 set_z0 2 %s' % z(60), 'vd 0 resize 1 2 2 2', 'vd 1 alloc']
+    sh_bad = [('vd 0 get_frequency 2', 'EINVAL'), ('vd 0 set_frequency 2 %s' % d2(5e9), 'EINVAL'), ('vd 0 get_cell 2 0 0', 'EINVAL'), ('vd 0 get_cell 0 2 0', 'EINVAL'),
+              ('vd 0 get_cell 0 0 2', 'EINVAL'), ('vd 0 set_cell 0 2 0 %s' % z(1), 'EINVAL'), ('vd 0 set_cell 0 0 2 %s' % z(1), 'EINVAL'), ('vd 0 set_cell 2 0 0 %s' % z(1), 'EINVAL'),
+              ('vd 0 get_matrix 2', 'EINVAL'), ('vd 0 get_z0 2', 'EINVAL'), ('vd 0 set_z0 2 %s' % z(75), 'EINVAL'), ('vd 0 get_fz0 2 0', 'EINVAL'), ('vd 0 get_fz0 0 2', 'EINVAL'),
+              ('vd 0 set_fz0 2 0 %s' % z(75), 'EINVAL'), ('vd 0 set_fz0 0 2 %s' % z(75), 'EINVAL'), ('vd 0 set_fz0 1 2 %s' % z(75), 'EINVAL'), ('vd 0 get_fz0_vector 2', 'EINVAL')]
+    G.append(('vnadata-shrunk', sh_setup, [(l, (e,), False) for l, e in sh_bad], 'vd 0 digest',
+              ['vd 0 resize 1 3 3 3', 'vd 0 digest', 'vd 0 get_z0 2', 'vd 0 free', 'vd 1 free']))
+    G.append(('vnadata-shrunk-fz0', sh_setup[:-2] + ['vd 0 set_fz0 1 1 %s' % z(80 + 1j)] + sh_setup[-2:], [(l, (e,), False) for l, e in sh_bad if ' get_z0' not in l], 'vd 0 digest',
+              ['vd 0 resize 1 3 3 3', 'vd 0 digest', 'vd 0 get_fz0 2 2', 'vd 0 free', 'vd 1 free']))
     # a refused vnadata_init leaves the object as it was
     G.append(('vnadata-init', vd_setup, [(l, (e,), False) for l, e in init_bad], 'vd 0 digest',
               ['vd 0 digest', 'vd 0 init 1 1 1 1', 'vd 0 set_cell 0 0 0 %s' % z(0.5), 'vd 0 savestr ' + h('x.npd'), 'vd 0 free', 'vd 1 free']))
